@@ -72,6 +72,11 @@ pub fn run_script<C: Suite>(script: &Value, idx: u64, rep: &mut Report, want_eve
         }
     }
     rep.scripts += 1;
+    // structural (Gen) prediction vs exact outcome: coincidence statistics
+    if let (Some(pk), Some(g), Some(a)) = (script.get("probe").and_then(|x| x.as_str()),
+        script.get("gen_accept").and_then(|x| x.as_bool()), script.get("accepted").and_then(|x| x.as_bool())) {
+        *rep.cover.entry(format!("gen:{pk}:{}:{}", if g { "accept" } else { "reject" }, if a { "accepted" } else { "rejected" })).or_insert(0) += 1;
+    }
     let mut bad = false;
     let empty = vec![];
     let steps = script.get("steps").and_then(|x| x.as_array()).unwrap_or(&empty);
@@ -80,8 +85,11 @@ pub fn run_script<C: Suite>(script: &Value, idx: u64, rep: &mut Report, want_eve
         let res = match it.step(st) {
             Ok(r) => r,
             Err(e) => {
-                rep.script_errors += 1;
-                rep.lines.push(json!({"script": idx, "step": si, "script_error": e.0}).to_string());
+                // a missing object after an earlier deviation is its consequence, not a script defect
+                if !bad {
+                    rep.script_errors += 1;
+                    rep.lines.push(json!({"script": idx, "step": si, "script_error": e.0}).to_string());
+                }
                 bad = true;
                 break;
             }
@@ -105,7 +113,7 @@ pub fn run_script<C: Suite>(script: &Value, idx: u64, rep: &mut Report, want_eve
                 mism.push(json!({"key": k, "expected": e, "got": g}));
             }
             // the random source must be consumed exactly as scripted
-            if st.get("rng").is_some() {
+            if st.get("rng").is_some() || st.get("rng32").is_some() {
                 for k in ["rng_unused", "rng_overrun", "rng_mismatch"] {
                     if res[k].as_u64().unwrap_or(0) != 0 {
                         mism.push(json!({"key": k, "expected": 0, "got": res[k], "rng_req": res["rng_req"]}));
@@ -178,6 +186,8 @@ fn cmd_replay(args: &[String]) -> i32 {
     let max_fail: usize = arg_val(args, "--max-fail").and_then(|s| s.parse().ok()).unwrap_or(5);
     let fail_dir = arg_val(args, "--fail-dir");
     let events_out = arg_val(args, "--events");
+    let sample = arg_val(args, "--sample");
+    let mut sample_done = false;
     let (tx, rx) = mpsc::channel::<(u64, String)>();
     let rx = Arc::new(Mutex::new(rx));
     let total = Arc::new(Mutex::new(Report::default()));
@@ -230,6 +240,14 @@ fn cmd_replay(args: &[String]) -> i32 {
             continue;
         }
         idx += 1;
+        if !sample_done {
+            if let Some(p) = &sample {
+                if let Some(v) = parse_line(&line) {
+                    let _ = std::fs::write(p, v.to_string());
+                }
+            }
+            sample_done = true;
+        }
         if tx.send((idx, line)).is_err() {
             break;
         }
